@@ -11,9 +11,11 @@ echo "| seed | breaks | applies | demo clean/patched | caught by (exit 1 + VIOLA
 echo "|---|---|---|---|---|---|" >> $out
 k=0
 for d in /verif/seeded/[A-Z]*/; do
+  name=$(basename $d)
+  # ONLY_FILE: a file with seed names; all other seeds are skipped (partial re-run after a change; merge with tools/seedmatrix_update.py)
+  if [ -n "${ONLY_FILE:-}" ] && ! grep -qx "$name" "$ONLY_FILE"; then continue; fi
   k=$((k+1))
   if [ -n "${SHARD_N:-}" ] && [ $((k % SHARD_N)) != "${SHARD_I}" ]; then continue; fi
-  name=$(basename $d)
   prop=$(/venv/bin/python -c "import json;print(json.load(open('$d/meta.json'))['breaks_property'])")
   checks=$(/venv/bin/python -c "import json;m=json.load(open('$d/meta.json'));print(' '.join(m.get('run_checks',[m['breaks_property']])))")
   w=$(mktemp -d /tmp/mut_XXXXXX)
